@@ -29,8 +29,12 @@ def misuse(prog) -> set[str]:
     kinds = set()
     state = {}
     nf = 0
+    from harness.runtime_sim import eff_pids
     for ins in prog:
         op = ins[0]
+        if op == 'm' and not eff_pids(ins):
+            kinds.add('map-empty')      # RuntimeError('Unable to map 0 tasks.')
+            break                       # the body dies here
         if op in 'sm':
             state[nf] = 'open'
             nf += 1
@@ -47,6 +51,9 @@ def misuse(prog) -> set[str]:
             state[ins[1]] = 'gone'
         elif op == 'x':
             kinds.add('dsl-raise')
+            break
+        elif op == 'r':
+            break
     return kinds
 
 
@@ -55,12 +62,10 @@ def reachable(table, pid, acc=None):
     if pid in acc:
         return acc
     acc.add(pid)
+    from harness.runtime_sim import children
     for ins in table[pid]:
-        if ins[0] == 's':
-            reachable(table, ins[1], acc)
-        elif ins[0] == 'm':
-            for p in ins[1]:
-                reachable(table, p, acc)
+        for p in children(ins):
+            reachable(table, p, acc)
     return acc
 
 
@@ -71,6 +76,8 @@ def classify_error(text: str) -> str:
         return 'await-gone'
     if 'Cannot wait on an already completed result' in text:
         return 'next-gone'
+    if 'Unable to map 0 tasks' in text:
+        return 'map-empty'
     m = re.findall(r'^(\w+(?:Error|Exception|Exit|Interrupt))\b', text, re.M)
     cls = m[-1] if m else 'Unknown'
     if cls == 'KeyError' and 'in cancel' in text:
@@ -78,9 +85,98 @@ def classify_error(text: str) -> str:
     return cls
 
 
+def gen_shape_submit(rng: random.Random):
+    r = rng.random()
+    return None if r < 0.7 else 'kw' if r < 0.85 else 'named'
+
+
+def gen_shape_map(rng: random.Random, n: int, style: str):
+    """Every argument shape Worker.map accepts: equal lists, lists of different
+    lengths (zip: the shortest decides), one packed list, keyword arguments,
+    task_name / log_context lists; in the malformed style also no task at all."""
+    r = rng.random()
+    if style == 'malformed' and r < 0.12:
+        return rng.choice([('z', 0, n), ('z', n + 1, 0), ('zn', 0, 0)])
+    if r < 0.45:
+        return None
+    if r < 0.60:      # first list longer than the shortest
+        return (rng.choice(['z', 'z', 'zn']), n + rng.randint(1, 3),
+                rng.choice([n, n, n + 1, max(1, n - 1)]))
+    if r < 0.70:      # first list is the shortest
+        return (rng.choice(['z', 'zn']), max(1, n - rng.randint(0, 2)),
+                n + rng.randint(0, 2))
+    if r < 0.78:      # last list is the shortest
+        return ('z', n + rng.randint(0, 2), max(1, n - rng.randint(1, 2)))
+    if r < 0.86:
+        return ('one',)
+    if r < 0.93:
+        return ('kw',)
+    return ('named',)
+
+
+def _sprinkle(rng, prog, preempt):
+    if not preempt:
+        return prog
+    out = []
+    for ins in prog:
+        if rng.random() < preempt:
+            out.append(('y',))
+        out.append(ins)
+    if rng.random() < preempt:
+        out.append(('y',))
+    return out
+
+
+def gen_followup(rng: random.Random, table: list, depth: int, budget: list,
+                 preempt: float) -> int:
+    """The way passes use next(): map a batch, then per batch of results that
+    came in do some follow-up work (submit + await, another map, an await of an
+    older future) before asking for the next batch; results of the map keep
+    arriving while the task waits for something else."""
+    from harness.runtime_sim import eff_pids
+    n = rng.randint(2, 4)
+    budget[0] -= n
+    kid = lambda: gen_prog(rng, table, max(depth - 2, 0),
+                           rng.choice(['clean', 'clean', 'unawaited']),
+                           budget, preempt)
+    proto = kid()
+    kids = tuple(proto if rng.random() < 0.7 else kid() for _ in range(n))
+    sh = gen_shape_map(rng, n, 'followup')
+    first = ('m', kids) if sh is None else ('m', kids, sh)
+    n = len(eff_pids(first))
+    prog = [first]
+    nf = 1
+    if rng.random() < 0.5:       # an older future awaited in between
+        budget[0] -= 1
+        prog.append(('s', kid()))
+        nf += 1
+        if rng.random() < 0.6:
+            prog.append(('a', 1))
+    for _ in range(rng.randint(1, n + 1)):
+        prog.append(('n', 0))
+        r = rng.random()
+        if r < 0.6 and budget[0] > 0:
+            budget[0] -= 1
+            prog.append(('s', kid()))
+            prog.append(('a', nf))
+            nf += 1
+        elif r < 0.75 and budget[0] > 1:
+            budget[0] -= 2
+            prog.append(('m', (kid(), kid())))
+            prog.append(('a', nf))
+            nf += 1
+    if rng.random() < 0.5:
+        prog.append(('a', 0))
+    table.append(tuple(_sprinkle(rng, prog, preempt)))
+    return len(table) - 1
+
+
 def gen_prog(rng: random.Random, table: list, depth: int, style: str,
-             budget: list) -> int:
+             budget: list, preempt: float = 0.0) -> int:
     """Appends a random program (children first) and returns its pid."""
+    from harness.runtime_sim import eff_pids
+    if style == 'followup' and depth > 0 and budget[0] >= 2:
+        return gen_followup(rng, table, depth, budget, preempt)
     futs = []
     if depth > 0 and budget[0] > 0:
         nf = rng.choice([0, 1, 1, 2, 2, 3])
@@ -90,20 +186,25 @@ def gen_prog(rng: random.Random, table: list, depth: int, style: str,
             cstyle = style if rng.random() < 0.8 else 'clean'
             if rng.random() < 0.5:
                 budget[0] -= 1
-                futs.append(('s', gen_prog(rng, table, depth - 1, cstyle,
-                                           budget)))
+                pid = gen_prog(rng, table, depth - 1, cstyle, budget, preempt)
+                sh = gen_shape_submit(rng)
+                futs.append(('s', pid) if sh is None else ('s', pid, sh))
             else:
                 n = rng.randint(1, 4)
                 budget[0] -= n
                 kids = []
-                proto = gen_prog(rng, table, depth - 1, cstyle, budget)
+                proto = gen_prog(rng, table, depth - 1, cstyle, budget,
+                                 preempt)
                 for i in range(n):
                     kids.append(proto if rng.random() < 0.6 else gen_prog(
-                        rng, table, max(depth - 2, 0), cstyle, budget))
-                futs.append(('m', tuple(kids)))
+                        rng, table, max(depth - 2, 0), cstyle, budget,
+                        preempt))
+                sh = gen_shape_map(rng, n, style)
+                futs.append(('m', tuple(kids)) if sh is None
+                            else ('m', tuple(kids), sh))
     plans = []
     for f in futs:
-        n = 1 if f[0] == 's' else len(f[1])
+        n = 1 if f[0] == 's' else len(eff_pids(f))
         r = rng.random()
         if style == 'clean':
             plan = ['a']
@@ -144,12 +245,23 @@ def gen_prog(rng: random.Random, table: list, depth: int, style: str,
         prog.insert(rng.randint(0, len(prog)), ('x',))
     if style == 'unawaited' and rng.random() < 0.15:
         prog.insert(rng.randint(0, len(prog)), ('r',))
+    if preempt:
+        # the worker's main thread can be preempted in the middle of a step:
+        # before / between / after the calls into the runtime
+        out = []
+        for ins in prog:
+            if rng.random() < preempt:
+                out.append(('y',))
+            out.append(ins)
+        if rng.random() < preempt:
+            out.append(('y',))
+        prog = out
     table.append(tuple(prog))
     return len(table) - 1
 
 
-STYLES = ['clean', 'clean', 'next', 'cancel', 'cancel', 'unawaited',
-          'raise', 'malformed']
+STYLES = ['clean', 'clean', 'next', 'followup', 'followup', 'cancel',
+          'cancel', 'unawaited', 'raise', 'malformed']
 
 
 def gen_scenario(rng: random.Random, flavour: str | None = None) -> dict:
@@ -167,6 +279,10 @@ def gen_scenario(rng: random.Random, flavour: str | None = None) -> dict:
         ncl = rng.choice([1, 1, 2])
     table: list = []
     clients = []
+    # a third of the scenarios preempt worker steps (finer than handler-level
+    # atomicity; these runs are judged by the oracles only once a transition
+    # really ran inside a step)
+    preempt = rng.choice([0.0, 0.0, 0.25, 0.5]) if rng.random() < 0.65 else 0.0
     for j in range(ncl):
         script = []
         nsub = rng.choice([1, 1, 2, 3])
@@ -175,7 +291,7 @@ def gen_scenario(rng: random.Random, flavour: str | None = None) -> dict:
             style = rng.choice(STYLES)
             depth = rng.choice([1, 2, 2, 3])
             roots.append(gen_prog(rng, table, depth, style,
-                                  [rng.choice([4, 8, 14])]))
+                                  [rng.choice([4, 8, 14])], preempt))
         ops = [('submit', p) for p in roots]
         later = []
         for i in range(nsub):
@@ -320,6 +436,17 @@ def check_step(sim, rec, V: Verdicts, st: dict):
         elif k == M.ERROR:
             if sim.nodes[a].kind == 'W':
                 p = mm[1]
+                # the task that was running: the last body event of this step
+                who = None
+                for i in range(len(sim.events) - 1, -1, -1):
+                    if sim.events[i][0] < rec['t']:
+                        break
+                    if sim.ev_step[i] == rec['t'] and sim.events[i][1] in (
+                            'start', 'spawn', 'await', 'saw', 'cancel',
+                            'raise'):
+                        who = sim.events[i][2]
+                        break
+                st['error_task'][(rec['t'], a)] = (who, sim.t)
                 if isinstance(p, tuple):
                     st['errors'].append((rec['t'], a, p[0],
                                          classify_error(p[1]), p[1][-600:]))
@@ -336,7 +463,8 @@ def new_state():
     return {'root_addr': {}, 'submitted': set(), 'processed': {},
             'cancel_issued': {}, 'to_worker': {}, 'errors': [],
             'client_results': [], 'client_cancel_processed': {},
-            'client_gone': {}, 'arrived': {}, 'decrements': {}}
+            'client_gone': {}, 'arrived': {}, 'decrements': {},
+            'error_task': {}}
 
 
 def evaluate(sim, quiescent: bool, st: dict, V: Verdicts) -> dict:
@@ -362,6 +490,7 @@ def evaluate(sim, quiescent: bool, st: dict, V: Verdicts) -> dict:
                 pid_of[tag + (k, i)] = p
     tag_of = {a: t for t, a in addr_of.items()}
     box_owner = {(w, m): tag for (tag, k), (w, m, _) in spawn.items()}
+    spawn_t = {(e[4], e[5]): e[0] for e in ev if e[1] == 'spawn'}
 
     def lineage(tag):
         out = []
@@ -455,9 +584,29 @@ def evaluate(sim, quiescent: bool, st: dict, V: Verdicts) -> dict:
     for (t, w, comp, cls, txt) in st['errors']:
         ci = comp_of_mbox.get(comp)
         if comp is None or ci is None or cls not in legit.get(ci, ()):
+            # raised by a task whose CANCEL this worker handled while the
+            # task was in the middle of the step (it goes on and calls into
+            # the runtime with its mailboxes gone)?
+            who, t_end = st['error_task'].get((t, w), (None, t))
+            proc = st['processed'].get(w, {})
+            if who is not None and any(
+                    x in proc and proc[x] <= t_end for x in lineage(who)):
+                cls = cls + ':task-cancelled-midstep'
             V.add('C07', f'unexpected-error:{cls}',
                   f'{w} sent an ERROR ({cls}) that no task body raised: '
                   f'...{txt[-300:]}', t)
+            # C12 (cancelling disturbs nothing else): the compilation was not
+            # cancelled by its client, one of its tasks cancelled a future,
+            # and now the client of the compilation is told about an error
+            # that no body raised
+            if ci is not None and ci not in st['client_cancel_processed'] \
+                    and any(tt <= t and tag_of.get(a, (None,))[0] == ci
+                            for a, tt in C.items()):
+                V.add('C12', f'error-reaches-uncancelled-compilation:{cls}',
+                      f'{w} sent an ERROR ({cls}) for compilation {ci}, which '
+                      f'was not cancelled: a task of it cancelled a future and '
+                      f'the tear-down of the cancelled work raised an error no '
+                      f'task body raised: ...{txt[-300:]}', t)
     for (t, kind, detail) in sim.anomalies:
         V.add('C07', f'{kind}:{detail[1]}', f'{detail}', t)
     for (t, node, txt) in sim.syserr:
@@ -505,13 +654,17 @@ def evaluate(sim, quiescent: bool, st: dict, V: Verdicts) -> dict:
                 ref is not None)
     # ----------------------------------------------------------------- C12
     # (3) no body activity after the worker processed a CANCEL of its lineage
-    for e in ev:
+    for ei, e in enumerate(ev):
         if e[1] in ('start', 'saw', 'ret'):
             t, kind, tag = e[0], e[1], e[2]
             wid = e[4] if kind in ('start', 'ret') else e[6]
             proc = st['processed'].get(wname.get(wid), {})
+            # a step that was already running when the incoming thread
+            # processed the CANCEL cannot be stopped: only steps that START
+            # afterwards count
+            t_step = sim.ev_step[ei]
             for a in lineage(tag):
-                if a in proc and proc[a] < t:
+                if a in proc and proc[a] < t_step:
                     V.add('C12', 'descendant-started-after-cancel'
                           if kind == 'start' else 'cancelled-task-stepped',
                           f'task {tag} ({kind}) ran on worker {wid} at t={t} '
@@ -520,12 +673,13 @@ def evaluate(sim, quiescent: bool, st: dict, V: Verdicts) -> dict:
                     break
     # (2) awaiting a cancelled future fails
     cancels = {}
-    for e in ev:
+    rec_of = {r['t']: r for r in sim.translog}
+    for ei, e in enumerate(ev):
         if e[1] == 'cancel':
             cancels.setdefault((e[2], e[3]), e[0])
         elif e[1] == 'await' and (e[2], e[3]) in cancels:
             t = e[0]
-            rec = sim.translog[t - 1]
+            rec = rec_of[sim.ev_step[ei]]
             from bqskit.runtime.message import RuntimeMessage as M
             if not any(mm[0] == M.ERROR for _, _, mm in rec['emitted']) \
                     and not cancelled_at(e[2], t):
@@ -614,7 +768,22 @@ def evaluate(sim, quiescent: bool, st: dict, V: Verdicts) -> dict:
                 for (tg, k), (ww, mm, _) in spawn.items():
                     if (ww, mm) == (n.wid, m):
                         kid = tg + (k, 0)
-                if owner in returned:
+                # created by a task AFTER this worker's incoming thread
+                # processed the CANCEL of the task's lineage (the task was in
+                # the middle of a step and went on)?
+                proc = st['processed'].get(n.name, {})
+                ts = spawn_t.get((n.wid, m), 0)
+                zombie = any(x in proc and proc[x] < ts
+                             for x in lineage(owner))
+                if zombie:
+                    V.add('C12', 'leak:worker._mailboxes:'
+                          'created-after-midstep-cancel',
+                          f'{n.name} still holds mailbox {m} of cancelled '
+                          f'work (owner {owner}): the owner was cancelled in '
+                          'the middle of a step (CANCEL handled by the '
+                          'incoming thread) and created this future '
+                          'afterwards; nothing ever removes it', sim.t)
+                elif owner in returned:
                     # the owner finished; its completion-time clean-up
                     # neither released nor cancelled this future
                     V.add('C12', 'orphan:worker._mailboxes:owner-completed'
@@ -712,6 +881,8 @@ def run_one(scenario, run_seed, schedule=None, max_steps=4000,
     sim.recorder = recorder
     stats['style'] = getattr(pol, 'style', 'replay')
     stats['transitions'] = sim.t
+    stats['transitions_inside_a_worker_step'] = sim.nested_fired
+    stats['runs_with_a_preempted_step'] = int(sim.nested_fired > 0)
     return sim, V, stats, st
 
 
@@ -890,6 +1061,15 @@ def report(ck: Check, agg: dict, prop: str):
 def replay(ck: Check, prop: str):
     body = json.loads(Path(ck.replay_path).read_text())
     rp = body['replay']
+    if 'fine_bits' in rp:
+        from harness import runtime_fine as rf
+        r = rf.run_schedule(rp['fine_bits'])
+        print(json.dumps({k: r[k] for k in r if k not in ('snaps', 'holders')},
+                         indent=1, default=str))
+        if not r['ok']:
+            report_fine_bad(ck, r)
+        print('reproduced' if not r['ok'] else 'NOT reproduced')
+        return
     if 'scenario' not in rp:
         print(f'replay: {body.get("what")}')
         print('  (no schedule recorded: this entry names a broken proof or '
@@ -1009,40 +1189,152 @@ def extra_c15(ck: Check):
     replay_witnesses(ck, 'C15')
 
 
-def extra_c07(ck: Check):
-    from harness.runtime_fine import double_wake_replay
-    r = double_wake_replay()
-    ck.coverage['fine_race_replay'] = r
-    if not r.get('line_found') or not r.get('fired'):
+def fine_schedules(locked: bool, tier: str) -> list:
+    """The schedule of the repaired finding + one shortest schedule per state
+    the source-line model can reach (printed by the driver)."""
+    from harness import runtime_model as rm
+    from harness.runtime_fine import RACE_BITS
+    paths = rm.run_driver([f'fine-paths {int(locked)}'])[0].split()
+    # after the shortest path: one step of the main thread, one of the
+    # incoming thread (exercises the no-op steps of a thread that waits for
+    # the mutex / for the ready queue); thorough: every edge of the state graph
+    tails = ['10'] if tier != 'thorough' else ['0', '1', '10', '01']
+    out = [RACE_BITS] + [p[1:] + t for p in paths for t in tails]
+    return out
+
+
+def run_fine(schedules: list, sk: dict, stop_at_first_failure: bool) -> dict:
+    """Scheduler-controlled line-level runs on the real Worker (two real
+    threads), oracle + state-by-state comparison with the model."""
+    from harness import runtime_fine as rf
+    from harness import runtime_model as rm
+    lk = int(bool(sk['locked']))
+    runs = []
+    for bits in schedules:
+        r = rf.run_schedule(bits, sk)
+        runs.append(r)
+        if stop_at_first_failure and not r['ok']:
+            break
+    got = rm.run_driver([f'fine {lk} {r["bits"] or "-"}' for r in runs])
+    bad, mism = [], []
+    for r, line in zip(runs, got):
+        if not r['ok']:
+            bad.append(r)
+        d = rf.compare_with_model(r, line)
+        if d is not None:
+            mism.append((r, d))
+    return {'runs': runs, 'bad': bad, 'mismatch': mism,
+            'steps': sum(len(r['bits']) for r in runs),
+            'blocked_on_lock': sum(r['blocked_on_lock'] for r in runs)}
+
+
+def _fine_replay(r):
+    return {'fine_bits': r['bits_given'], 'executed_bits': r['bits'],
+            'locked': r['locked'],
+            'steps': [f'{"main" if b else "incoming"}:'
+                      + '.'.join(map(str, lab)) + ('' if moved else ':no-op')
+                      for b, lab, moved in r['labels']],
+            'replay_cmd': '/venv/bin/python -c "from bqskit.ir.circuit import'
+            ' Circuit; from harness.runtime_fine import run_schedule as f; '
+            f'print(f(\'{r["bits_given"]}\'))"',
+            'obs': {k: r.get(k) for k in (
+                'max_ready', 'results', 'errors', 'inc_crash', 'abort',
+                'blocked_on_lock')}}
+
+
+def report_fine_bad(ck: Check, r: dict):
+    if r.get('abort') in ('timeout', 'incoming-thread-hung',
+                          'main-blocked-unexpectedly'):
         ck.violation(
-            'fine-race:cannot-force', 'the source line of _process_await at '
-            'which the interleaving of C07_fine_double_wake_witness is forced '
-            'was not found / not reached (code changed: re-derive the fine '
-            'model)', {'broken': 'C07_fine_double_wake_witness', 'obs': r},
-            found_input=False)
-    elif r.get('assertion_error') or r.get('ready_after_racy_await', 0) > 1:
+            'fine-race:cannot-force', 'the line-level scheduler could not '
+            f'drive the two threads of the real Worker ({r["abort"]}); the '
+            'source-line model is not tied to the code in this run',
+            _fine_replay(r), found_input=False)
+    elif r['assertion_error'] or r['max_ready'] > 1:
         ck.violation(
             'fine-race:double-wake:_process_await||_handle_result',
-            'thread interleaving (forced with sys.settrace on the real '
-            'Worker): _handle_result runs right after `box.dest_addr = ...` '
-            'of _process_await -> the task is put on the ready queue '
-            f'{r.get("ready_after_racy_await")} times; the stale wake-up hits '
+            'thread interleaving (two real threads of a real Worker, parked '
+            'at source lines with sys.settrace): _handle_result runs between '
+            'the statements of _process_await -> the task is put on the '
+            f'ready queue {r["max_ready"]} times; the stale wake-up hits '
             '`assert box.ready` and an AssertionError the task body never '
-            'raised is sent as ERROR',
-            {'replay_cmd': '/venv/bin/python -c "from harness.runtime_fine '
-             'import double_wake_replay as f; print(f())"', 'obs': r},
-            found_input=True)
+            'raised is sent as ERROR: ' + ' '.join(_fine_replay(r)['steps']),
+            _fine_replay(r), found_input=True)
     else:
+        kind = ('stuck' if r.get('abort') == 'stuck' else
+                'incoming-thread-crash' if r['inc_crash'] else
+                'error' if r['errors'] else 'wrong-result')
         ck.violation(
-            'fine-race:witness-not-reproduced',
-            'C07_fine_double_wake_witness describes a race the real Worker no '
-            'longer shows under the forced interleaving (model follows a '
-            'different code)', {'broken': 'C07_fine_double_wake_witness',
-                                'obs': r}, found_input=False)
+            f'fine-race:{kind}:_process_await||_handle_result',
+            'thread interleaving (two real threads of a real Worker, parked '
+            f'at source lines): the awaiting task does not return exactly '
+            f'once with its two results ({kind}): results={r["results"]} '
+            f'errors={r["errors"]} crash={r["inc_crash"]}: '
+            + ' '.join(_fine_replay(r)['steps']),
+            _fine_replay(r), found_input=True)
+
+
+def extra_c07(ck: Check):
+    from harness import runtime_fine as rf
+    sk = rf.skeleton()
+    cov = {'statements_match_model': sk['ok'], 'locked': sk['locked']}
+    ck.coverage['fine_model_tie'] = cov
+    if not sk['ok']:
+        ck.violation(
+            'fine-model:statements-changed', 'the statements of '
+            'Worker._process_await / Worker._handle_result are no longer the '
+            'statements the source-line model (Model/FineWake.lean) has one '
+            'step for: ' + '; '.join(sk['problems'])[:600]
+            + ' (re-derive the model; C07_fine_lock_safe does not describe '
+            'this code)', {'broken': 'C07_fine_lock_safe',
+                           'problems': sk['problems']}, found_input=False)
+        return
+    scheds = fine_schedules(sk['locked'], ck.tier)
+    if not sk['locked'] and ck.tier != 'thorough':
+        scheds = scheds[:80]
+    res = run_fine(scheds, sk, stop_at_first_failure=not sk['locked'])
+    cov.update(schedules=len(res['runs']), steps=res['steps'],
+               steps_blocked_on_the_mutex=res['blocked_on_lock'],
+               failing=len(res['bad']), model_mismatches=len(res['mismatch']),
+               finding_schedule=rf.double_wake_replay()
+               if sk['locked'] else None)
+    ck.coverage['evaluations'] += len(res['runs'])
+    for r in res['bad'][:3]:
+        report_fine_bad(ck, r)
+    for r, d in res['mismatch'][:1]:
+        ck.violation(
+            'correspondence:fine-model', 'line-level run of the real Worker '
+            f'and the source-line model disagree: {d}',
+            {'broken': 'correspondence FineWake <-> worker.py',
+             **_fine_replay(r)}, found_input=False)
+    if not sk['locked']:
+        ck.violation(
+            'fine-model:not-locked', 'the statements of _process_await / '
+            '_handle_result are not inside `with self._mailbox_mutex:`: the '
+            'code is the pre-fix variant, C07_fine_lock_safe (the model with '
+            'the lock) does not describe it'
+            + ('' if res['bad'] else '; the scheduled line-level runs found '
+               'no failing schedule'),
+            {'broken': 'C07_fine_lock_safe'}, found_input=False)
 
 
 # ------------------------------------------- exhaustive delivery orders (small)
 SMALL_TREES = {
+    # a parent cancels its direct child; the child owns a future and awaits
+    # it; its step can be preempted between the submit and the await (the
+    # CANCEL can arrive before the child starts, in the middle of its step,
+    # while it waits, after it finished)
+    'child-cancelled-at-any-point': (
+        (), (('s', 0), ('y',), ('a', 0)), (('s', 1), ('c', 0))),
+    # ... and the child is preempted BEFORE it creates its future
+    'child-preempted-before-submit': (
+        (), (('y',), ('s', 0), ('a', 0)), (('s', 1), ('c', 0))),
+    # ... and the child, cancelled in the middle of its step, cancels its own
+    # future afterwards
+    'child-preempted-then-cancels': (
+        (), (('s', 0), ('y',), ('c', 0)), (('s', 1), ('c', 0))),
+    # map over argument lists of different lengths
+    'map-zip-await': ((), (('m', (0, 0, 0), ('z', 3, 2)), ('a', 0))),
     'submit-await': ((), (('s', 0), ('a', 0))),
     'map2-await': ((), (('m', (0, 0)), ('a', 0))),
     'two-submits-reversed': ((), (('s', 0), ('s', 0), ('a', 1), ('a', 0))),
@@ -1068,13 +1360,18 @@ def small_scenarios(which='all'):
                                  'table': table, 'clients': [script]}))
     if which == 'quick':
         keep = ('submit-await/detached1/result', 'submit-cancel/detached1/result',
-                'submit-await/detached1/cancel')
+                'submit-await/detached1/cancel',
+                'child-cancelled-at-any-point/detached1/result',
+                'child-preempted-before-submit/detached1/result',
+                'child-preempted-then-cancels/detached1/result',
+                'map-zip-await/attached1/result')
         out = [x for x in out if x[0] in keep]
     return out
 
 
-def _global_key(sim, rec):
+def _global_key(sim, rec, paused=()):
     parts = [rec.s_state(n) for n in sim.nodes if sim.nodes[n].kind != 'C']
+    parts.append('paused:' + repr(list(paused)))
     for (a, b), q in sorted(sim.chan.items()):
         parts.append(f'{a}>{b}:' + '|'.join(rec.s_msg(a, b, m) for m in q))
     for n in sim.nodes.values():
@@ -1108,11 +1405,22 @@ def exhaustive(scenario, seed, limit):
         V = Verdicts()
         st = new_state()
         rec = rm.Recorder(sim, scenario)
+        stop = {}
+
+        def on_stop(s_):
+            # the prefix ends while a worker step is preempted: take the
+            # state and the enabled set now (the step is unwound afterwards)
+            stop['key'] = _global_key(s_, rec, s_.paused)
+            stop['en'] = s_.enabled()
+        sim.on_stop = on_stop
         sim.run(schedule=prefix, max_steps=len(prefix) + 1,
                 after=lambda s, r: check_step(s, r, V, st))
         stats['replays'] += 1
-        key = _global_key(sim, rec)
-        en = sim.enabled()
+        if stop:
+            key, en = stop['key'], stop['en']
+        else:
+            key = _global_key(sim, rec)
+            en = sim.enabled()
         if key in seen:
             sim.dispose()
             continue
